@@ -96,6 +96,10 @@ def shards(tier):
                 nsl = 16 if BOUND2[name] == "line" else 1
                 for k in range(nsl):
                     out.append({"kind": "schedule", "harness": name, "bound": 2, "fresh": False, "granularity": BOUND2[name], "slice": [k, nsl]})
+        elif harness_bound(name, tier) == 2:
+            # bound 2 at line granularity is quadratic in the number of scheduling points: split by first-level deviation
+            for k in range(16):
+                out.append({"kind": "schedule", "harness": name, "bound": 2, "fresh": False, "slice": [k, 16]})
         else:
             out.append({"kind": "schedule", "harness": name, "bound": harness_bound(name, tier), "fresh": False})
     fresh = ["np2_add_shared", "obj2_add_shared", "ak2_scale_vs_Array"] + (["np_add_shared", "obj_add_shared", "ak_add_vs_Array"] if tier == "thorough" else [])
